@@ -717,18 +717,3 @@ Proof.
   apply (proj1 (forallb_forall _ _) H) in Hd. apply existsb_exists in Hd.
   destruct Hd as (v & Hv & E). apply Z.eqb_eq in E. subst. assumption.
 Qed.
-Definition table_hypb_of (o : outcome (list Z * list Z)) (diffs : list Z) : bool :=
-  match o with
-  | Ok (bits, vals) => t81_table_ok bits vals && coversb vals diffs
-  | _ => false
-  end.
-Definition table_hypb (diffs : list Z) : bool := table_hypb_of (build_optimal (count_freqs diffs)) diffs.
-Lemma table_hypb_of_ok : forall o diffs, table_hypb_of o diffs = true ->
-  exists bits vals, o = Ok (bits, vals) /\ t81_table_ok bits vals = true /\ covers vals diffs.
-Proof.
-  intros o diffs H. destruct o as [[bits vals]| | |]; try discriminate H.
-  cbn [table_hypb_of] in H. apply andb_true_iff in H. destruct H as [H1 H2].
-  exists bits, vals. split; [reflexivity|]. split; [assumption | apply coversb_ok; assumption].
-Qed.
-Lemma table_hypb_ok : forall diffs, table_hypb diffs = true -> table_hyp diffs.
-Proof. intros diffs H. exact (table_hypb_of_ok _ _ H). Qed.
